@@ -76,7 +76,7 @@ func planC11(tier string, seed int64) (*core.Plan, error) {
 				}
 			})
 			// other guardable statements: the well-formed expressions only (few)
-			for _, stmt := range []string{"container", "list", "leaf-list", "case", "choice", "uses", "augment"} {
+			for _, stmt := range []string{"container", "list", "leaf-list", "case", "choice", "uses", "augment", "refine", "anydata"} {
 				allTokenSeqs(5, func(toks []string) {
 					if !wellFormedIff(toks) {
 						return
